@@ -15,14 +15,25 @@ def py_monitor(line, obs):
     ws = obs.split(" ")
     if ws[0] != "ok" or "rt" not in ws:
         return "fail malformed-observation"
-    k = ws.index("rt")
-    first, second = ws[1:k], ws[k + 1:]
-    if second == ["err"]:
-        return "fail serialised-value-not-readable"
-    if first[:-1] != second[:-1]:
-        return "fail accessors-differ"
-    if first[-1] != second[-1]:
-        return "fail text-differs"
+    # ok <v1> <j1> rt <v2> <j2> rt <v3> <j3>
+    parts = []
+    cur = []
+    for w in ws[1:]:
+        if w == "rt":
+            parts.append(cur)
+            cur = []
+        else:
+            cur.append(w)
+    parts.append(cur)
+    for a, b in zip(parts, parts[1:]):
+        if b == ["err"]:
+            return "fail serialised-value-not-readable"
+        if a[:-1] != b[:-1]:
+            return "fail accessors-differ"
+        if a[-1] != b[-1]:
+            return "fail text-differs"
+    if len(parts) != 3:
+        return "fail malformed-observation"
     return "ok"
 
 
